@@ -65,7 +65,7 @@ func c16(repo string, out *fg.Out) error {
 		return err
 	}
 	env := fg.NewConstEnv([]*fg.File{q})
-	regexNames := []string{"patternDBTable", "patternSimpleTable", "patternJoinDBTable", "patternJoinSimpleTable", "patternCTENames", "validIdentifierPattern"}
+	regexNames := []string{"patternDBTable", "patternSimpleTable", "patternJoinDBTable", "patternJoinSimpleTable", "patternCTENames", "validIdentifierPattern", "patternJoinWord", "patternReadParquetCall"}
 	regex := map[string]string{}
 	for _, n := range regexNames {
 		ex, ok := env.Exprs[n]
@@ -157,10 +157,20 @@ func c16(repo string, out *fg.Out) error {
 	if ist == nil {
 		return fmt.Errorf("func isSingleTableQuery not found")
 	}
-	istCount, istContains, istTrim := strArgs(ist, "Count"), strArgs(ist, "Contains"), strArgs(ist, "TrimLeft")
-	if len(istCount) != 1 || len(istContains) != 1 || len(istTrim) != 1 {
-		return fmt.Errorf("isSingleTableQuery: expected one Count, one Contains, one TrimLeft with literal arguments; found %v %v %v", istCount, istContains, istTrim)
+	istCount, istTrim := strArgs(ist, "Count"), strArgs(ist, "TrimLeft")
+	// since d4e5686 the JOIN test is patternJoinWord.MatchString(sqlLower), no longer Contains(" join ")
+	joinTest := ""
+	for _, c := range fg.CallsNamed(ist, "MatchString") {
+		if sel, ok := c.Fun.(*ast.SelectorExpr); ok {
+			if id, ok := sel.X.(*ast.Ident); ok {
+				joinTest = id.Name
+			}
+		}
 	}
+	if len(istCount) != 1 || len(istTrim) != 1 || joinTest != "patternJoinWord" || len(strArgs(ist, "Contains")) != 0 {
+		return fmt.Errorf("isSingleTableQuery: expected one Count, one TrimLeft with literal arguments and patternJoinWord.MatchString; found %v %v %q", istCount, istTrim, joinTest)
+	}
+	istContains := []string{joinTest}
 	// since 53c9b19: the fast path is gated by the permission extractor's pattern and by the CTE extractor
 	var istGuards []string
 	for _, n := range []string{"FindAllStringIndex", "extractCTENames"} {
@@ -181,6 +191,30 @@ func c16(repo string, out *fg.Out) error {
 			}
 		}
 	}
+	fastGuard := true
+	for _, fn := range []string{"convertSingleTableQuery", "convertSingleTableQueryForParallel"} {
+		fd := q.FuncDecl("QueryHandler", fn)
+		if fd == nil || len(fg.CallsNamed(fd, "isDotOrCallAt")) != 1 {
+			fastGuard = false
+		}
+	}
+	quotedCTE := true
+	for _, fn := range []string{"convertSQLToStoragePaths", "convertSQLToStoragePathsWithHeaderDB"} {
+		fd := q.FuncDecl("QueryHandler", fn)
+		found := false
+		if fd != nil {
+			ast.Inspect(fd, func(n ast.Node) bool {
+				if r, ok := n.(*ast.RangeStmt); ok {
+					if id, ok := r.X.(*ast.Ident); ok && id.Name == "identNames" && strings.Contains(q.Text(r.Body), "cteNames[") {
+						found = true
+					}
+				}
+				return true
+			})
+		}
+		quotedCTE = quotedCTE && found
+	}
+	rpNeedsCall := len(fg.CallsNamed(gts, "MatchString")) == 1 && len(fg.CallsNamed(gts, "ioDenylistNormalise")) == 1
 	cst := q.FuncDecl("QueryHandler", "convertSingleTableQuery")
 	if cst == nil {
 		return fmt.Errorf("method convertSingleTableQuery not found")
@@ -321,6 +355,9 @@ func c16(repo string, out *fg.Out) error {
 	fmt.Fprintf(w, "def dotOrCallTrim : String := %s\n", fg.LeanStr(docTrim[0]))
 	fmt.Fprintf(w, "def singleTableGuards : List String := %s\n", leanList(istGuards))
 	fmt.Fprintf(w, "def headerCteAlways : Bool := %v\n", headerCteAlways)
+	fmt.Fprintf(w, "def fastPathCallGuard : Bool := %v\n", fastGuard)
+	fmt.Fprintf(w, "def quotedCteRegistered : Bool := %v\n", quotedCTE)
+	fmt.Fprintf(w, "def readParquetShortCircuitNeedsCall : Bool := %v\n", rpNeedsCall)
 	fmt.Fprintf(w, "def slowPassOrder : List String := %s\n", leanList(slowOrder))
 	fmt.Fprintf(w, "def headerPassOrder : List String := %s\n", leanList(hdrOrder))
 	fmt.Fprintf(w, "def localPathTemplate : String := %s\n", fg.LeanStr(localTmpl))
